@@ -235,20 +235,20 @@ Print Assumptions C04_step_no_abort_no_native.
    keep ninv; call1 / try1 / call0 / rb1 do so when the nested run does ([reenter_ok]).
    The stdlib natives __min, __max, __sort are not [covered_native]: they are in C04_native_call_ok0. *)
 Theorem C04_native_call_ok : forall F P reenter start,
-  code_ok P start -> reenter_ok P reenter start -> (0 < code_len P)%N ->
+  code_ok P start -> reenter_ok P reenter start (fun _ => False) -> (0 < code_len P)%N ->
   forall h s, ninv P start s ->
     (forall n, find_native h all_natives = Some n -> covered_native n = true) ->
-    nres_ok P start s (call_native F P reenter h s).
-Proof. exact call_native_ok. Qed.
+    nres_ok P start (fun _ => False) s (call_native F P reenter h s).
+Proof. intros F P reenter start. exact (call_native_ok F P reenter start (fun _ => False)). Qed.
 Print Assumptions C04_native_call_ok.
 
 (* EVERY native (also __min, __max, __sort): no abort, and the state left satisfies vm_inv again (for these three
    the heap is not shown to stay acyclic: the row / table they build holds values whose rank after the callbacks
    is not known) *)
 Theorem C04_native_call_ok0 : forall F P reenter start,
-  code_ok P start -> reenter_ok P reenter start -> (0 < code_len P)%N ->
-  forall h s, ninv P start s -> nres_ok0 P start s (call_native F P reenter h s).
-Proof. exact call_native_ok0. Qed.
+  code_ok P start -> reenter_ok P reenter start (fun _ => False) -> (0 < code_len P)%N ->
+  forall h s, ninv P start s -> nres_ok0 P start (fun _ => False) s (call_native F P reenter h s).
+Proof. intros F P reenter start. exact (call_native_ok0 F P reenter start (fun _ => False)). Qed.
 Print Assumptions C04_native_call_ok0.
 
 (* run_no_abort, one step, ALL 47 opcodes and every native, under [step_pre3] =
@@ -257,10 +257,10 @@ Print Assumptions C04_native_call_ok0.
    [side]; nested runs (natives that call back) keep their contract [reenter_ok]. *)
 Theorem C04_step_no_abort :
   forall F bld P reenter start,
-    code_ok P start -> reenter_ok P reenter start ->
+    code_ok P start -> reenter_ok P reenter start (fun _ => False) ->
     forall ip0 s, step_pre3 F bld P start ip0 s ->
     forall a s', step F bld P reenter ip0 s <> SStop a s'.
-Proof. exact step_no_abort_all. Qed.
+Proof. exact step_no_abort_strict. Qed.
 Print Assumptions C04_step_no_abort.
 
 (* preservation: the state of every non-abort result satisfies vm_inv0 again and no object died; after SNext the
@@ -268,16 +268,16 @@ Print Assumptions C04_step_no_abort.
    [side], not of vm_inv: SetProperty / AppendTable can build a cycle, A-37.) *)
 Theorem C04_step_preserves :
   forall F bld P reenter start,
-    code_ok P start -> reenter_ok P reenter start ->
+    code_ok P start -> reenter_ok P reenter start (fun _ => False) ->
     forall ip0 s, step_pre3 F bld P start ip0 s ->
     res_ok P start s (step F bld P reenter ip0 s).
-Proof. exact step_preserves. Qed.
+Proof. intros F bld P reenter start. exact (step_preserves F bld P reenter start (fun _ => False)). Qed.
 Print Assumptions C04_step_preserves.
 
 (* the dispatch loop: no abort (and enough fuel) as long as every dispatched instruction meets [side] *)
 Theorem C04_loop_no_abort :
   forall F bld P reenter start,
-    code_ok P start -> reenter_ok P reenter start ->
+    code_ok P start -> reenter_ok P reenter start (fun _ => False) ->
     (forall ip s, rres_R paid (cr s) (reenter ip s)) ->
     forall fuel ip s,
       vm_inv P start s -> ipok P start ip -> sides_hold F bld P reenter ip s -> (st_rem s <= N.of_nat fuel)%N ->
@@ -285,13 +285,13 @@ Theorem C04_loop_no_abort :
       | RStop _ _ => False
       | ROk s' | RErr _ _ s' => vm_inv0 P start s' /\ length (st_heap s) <= length (st_heap s')
       end.
-Proof. exact loop_no_abort. Qed.
+Proof. exact loop_no_abort_strict. Qed.
 Print Assumptions C04_loop_no_abort.
 
 (* Vm::run from a new VM (or from the state a previous run left) *)
 Theorem C04_run_no_abort_partial : forall F bld P start budget s,
   code_ok P start ->
-  reenter_ok P (run_at F bld P false (N.of_nat budget) 129) start ->
+  reenter_ok P (run_at F bld P false (N.of_nat budget) 129) start (fun _ => False) ->
   vm_inv0 P start s ->
   (forall s1, push_frame s (mkFrame 0 0 0 None) = Some s1 ->
      sides_hold F bld P (run_at F bld P false (N.of_nat budget) 129) 0 (set_rem s1 (N.of_nat budget))) ->
@@ -315,12 +315,14 @@ Proof. exact cyclic_heap_not_acyclic. Qed.
 Print Assumptions C04_cyclic_heap_not_acyclic.
 
 (* ---- what keeps the heap acyclic (C04VmProofs8.v, C04VmProofs9.v) ---- *)
-From Cao Require Import C04VmProofs8 C04VmProofs9 C04VmLink.
+From Cao Require Import C04VmProofs8 C04VmProofs9 C04VmProofs10 C04VmLink.
 
 (* every instruction except SetProperty (33), AppendTable (40) and the natives (CallNative; CallFunction of a
    native function value) keeps heap_acyclic *)
-Theorem C04_step_keeps_acyclic : forall F bld P reenter ip0 s ip' s',
-  step F bld P reenter ip0 s = SNext ip' s' ->
+(* [res_st r] = the state of a result that is not an abort (SNext, SExit or SErr: also the state that a failing
+   nested run hands back) *)
+Theorem C04_step_keeps_acyclic : forall F bld P reenter ip0 s s',
+  res_st (step F bld P reenter ip0 s) = Some s' ->
   heap_acyclic (st_heap s) -> heap_closed (st_heap s) ->
   ~ In (opcode_at P ip0) [4; 33; 40]%N ->
   (opcode_at P ip0 = 11%N -> forall a h, top1 s = VObj a -> hget (st_heap s) a <> Some (ONative h)) ->
@@ -331,18 +333,29 @@ Print Assumptions C04_step_keeps_acyclic.
 (* SetProperty / AppendTable keep the ranks when the stored key and value are ranked below the instance
    (vdepth = 1 + rank of a table, 0 of anything else); storing a table into a table that it reaches is how a
    program builds a cycle (C04_cyclic_table_aborts) *)
-Theorem C04_set_property_ranked : forall F opc ip0 ip s ip' s' rk a,
-  i_33 F opc ip0 ip s = SNext ip' s' -> ranked (st_heap s) rk -> speek s 1 = VObj a ->
+Theorem C04_set_property_ranked : forall F opc ip0 ip s s' rk a,
+  res_st (i_33 F opc ip0 ip s) = Some s' -> ranked (st_heap s) rk -> speek s 1 = VObj a ->
   vdepth (st_heap s) rk (speek s 0) <= rk a -> vdepth (st_heap s) rk (speek s 2) <= rk a ->
   ranked (st_heap s') rk.
 Proof. exact set_property_ranked. Qed.
 Print Assumptions C04_set_property_ranked.
 
-Theorem C04_append_table_ranked : forall F opc ip0 ip s ip' s' rk a,
-  i_40 F opc ip0 ip s = SNext ip' s' -> ranked (st_heap s) rk -> speek s 0 = VObj a ->
+Theorem C04_append_table_ranked : forall F opc ip0 ip s s' rk a,
+  res_st (i_40 F opc ip0 ip s) = Some s' -> ranked (st_heap s) rk -> speek s 0 = VObj a ->
   vdepth (st_heap s) rk (speek s 1) <= rk a -> ranked (st_heap s') rk.
 Proof. exact append_table_ranked. Qed.
 Print Assumptions C04_append_table_ranked.
+
+(* natives_simple is kept by every instruction; NativeFunctionPointer (38) is the only one that creates native
+   function values, and the names it can create are in the program text ([native_pointers_simple]) *)
+Theorem C04_step_keeps_natives_simple : forall F bld P reenter ip0 s s',
+  res_st (step F bld P reenter ip0 s) = Some s' ->
+  native_pointers_simple P -> natives_simple (st_heap s) ->
+  opcode_at P ip0 <> 4%N ->
+  (opcode_at P ip0 = 11%N -> forall a h, top1 s = VObj a -> hget (st_heap s) a <> Some (ONative h)) ->
+  natives_simple (st_heap s').
+Proof. exact step_keeps_natives_simple. Qed.
+Print Assumptions C04_step_keeps_natives_simple.
 
 (* ---- C10 gives code_ok; Vm::run of a compiled program ---- *)
 Theorem C04_wellformed_code_ok : forall w B,
@@ -356,7 +369,7 @@ Theorem C04_compiled_run_no_abort : forall (M : module) (o : options) (B : compi
   (N.of_nat (length (p_bytecode B)) < 2147483648)%N -> (N.of_nat (length (Compiler.p_data B)) < 4294967296)%N ->
   exists is, decode (p_bytecode B) = Some is /\
     forall F bld budget s,
-      reenter_ok (C15Link.to_vm B) (run_at F bld (C15Link.to_vm B) false (N.of_nat budget) 129) (wf_start is) ->
+      reenter_ok (C15Link.to_vm B) (run_at F bld (C15Link.to_vm B) false (N.of_nat budget) 129) (wf_start is) (fun _ => False) ->
       vm_inv0 (C15Link.to_vm B) (wf_start is) s ->
       (forall s1, push_frame s (mkFrame 0 0 0 None) = Some s1 ->
          sides_hold F bld (C15Link.to_vm B) (run_at F bld (C15Link.to_vm B) false (N.of_nat budget) 129) 0
@@ -364,3 +377,78 @@ Theorem C04_compiled_run_no_abort : forall (M : module) (o : options) (B : compi
       forall a, fst (run F bld budget (C15Link.to_vm B) s) <> OAbort a.
 Proof. exact compiled_run_no_abort. Qed.
 Print Assumptions C04_compiled_run_no_abort.
+
+(* ------------------------------------------------------------------ no hypothesis about intermediate states *)
+From Cao Require Import C04VmProofs11 C04VmChecked C04VmAgree C04VmFinal.
+
+(* The CHECKED VM (C04VmChecked.v: step_c, loop_c, run_at_c, run_c) is the VM model with runtime checks; a failed
+   check stops the run with the outcome OAbort AUnmodelled, which [run] itself never produces.  The checks:
+     chk_store    SetProperty / AppendTable do not store a table as key or value (flat tables: under this
+                  condition every reachable heap stays acyclic; storing a table into a table can build the cycle
+                  of A-37)
+     chk_foreach  ForEach in a Debug build finds a counter >= 0          (a property of compiled programs)
+     chk_reg      RegisterUpvalue of an enclosing upvalue finds it       (a property of compiled programs)
+     chk_native   CallNative is not __min / __max / __sort               (not shown to keep the heap acyclic)
+     chk_return   Return runs with at least two call frames              (with one frame the VM reports BadReturn;
+                  in a nested run the frames of run_function lie below - not formalised)
+     run_at_c 0   nesting of runs below 130 levels                       (the crate's call stack of 256 frames
+                  bounds it by 128 - not formalised)
+   The contract of the nested run, until here a hypothesis (reenter_ok), is PROVED by induction over the depth: *)
+Theorem C04_nested_run_contract : forall F bld P start,
+  code_ok P start -> native_pointers_simple P ->
+  forall d, reenter_ok P (run_at_c F bld P d) start okU.
+Proof. exact run_at_c_contract. Qed.
+Print Assumptions C04_nested_run_contract.
+
+(* the checked VM never aborts in any other way: no hypothesis about intermediate states or nested runs *)
+Theorem C04_checked_run_no_abort : forall F bld P start,
+  code_ok P start -> native_pointers_simple P ->
+  forall budget s,
+    vm_inv0 P start s -> heap_acyclic (st_heap s) -> natives_simple (st_heap s) ->
+    forall a, fst (run_c F bld P budget s) = OAbort a -> a = AUnmodelled.
+Proof. exact checked_run_no_abort. Qed.
+Print Assumptions C04_checked_run_no_abort.
+
+(* a run of the VM on which no check fails IS the checked run (natives and loops hand a stop upwards unchanged) *)
+Theorem C04_run_agrees : forall F bld P budget s,
+  fst (run_c F bld P budget s) <> OAbort AUnmodelled ->
+  run F bld budget P s = run_c F bld P budget s.
+Proof. exact run_agrees. Qed.
+Print Assumptions C04_run_agrees.
+
+Theorem C04_run_no_abort_unless_check : forall F bld P start budget s,
+  code_ok P start -> native_pointers_simple P ->
+  vm_inv0 P start s -> heap_acyclic (st_heap s) -> natives_simple (st_heap s) ->
+  fst (run_c F bld P budget s) <> OAbort AUnmodelled ->
+  run F bld budget P s = run_c F bld P budget s /\
+  forall a, fst (run F bld budget P s) <> OAbort a.
+Proof. exact run_no_abort_unless_check. Qed.
+Print Assumptions C04_run_no_abort_unless_check.
+
+(* Vm::run of a compiled program on a new Vm: the only conditions left are static ([native_pointers_simple]: no
+   NativeFunctionPointer names call1 / try1 / call0 / rb1 / __min / __max / __sort; C10's side conditions) and
+   "no check of the checked VM fails on this run" - in particular: the executed stores never put a table into a
+   table *)
+Theorem C04_run_no_abort_flat_tables : forall (M : module) (o : options) (B : compiled),
+  compile M o = COk B -> Wellformed.program_in_range M o = true -> WellformedSide.program_utf8 M o = true ->
+  (N.of_nat (length (p_bytecode B)) < 2147483648)%N -> (N.of_nat (length (Compiler.p_data B)) < 4294967296)%N ->
+  native_pointers_simple (C15Link.to_vm B) ->
+  forall F bld budget,
+    fst (run_c F bld (C15Link.to_vm B) budget fresh_state) <> OAbort AUnmodelled ->
+    forall a, fst (run F bld budget (C15Link.to_vm B) fresh_state) <> OAbort a.
+Proof. exact compiled_run_no_abort_unless_check. Qed.
+Print Assumptions C04_run_no_abort_flat_tables.
+
+(* the checks are not vacuous: a corpus program with nested runs (call1 re-enters the VM) passes every check and
+   its run is the checked run; on the cyclic-table program of A-37 chk_store stops the checked VM at the store *)
+From Cao Require Import VmWitness C04VmCheckedWitness.
+Theorem C04_checked_run_nested_ok : forall F bld,
+  fst (run_c F bld nested_budget_program 1000 fresh_state) = OOk /\
+  run F bld 1000 nested_budget_program fresh_state = run_c F bld nested_budget_program 1000 fresh_state.
+Proof. exact checked_run_nested_ok. Qed.
+Print Assumptions C04_checked_run_nested_ok.
+
+Theorem C04_checked_run_cyclic_stops : forall F bld,
+  fst (run_c F bld cyclic_prog 100 fresh_state) = OAbort AUnmodelled.
+Proof. exact checked_run_cyclic_stops. Qed.
+Print Assumptions C04_checked_run_cyclic_stops.
